@@ -258,4 +258,27 @@ prop("C20",
      bounds={"quick": "8 builds x 29 probes x 8 levels (+ silent for the 3 primitives)", "thorough": "same + 4 in-library statements per build"},
      runs=[dict(name="h_gate_" + b, sources=["harness/h_gate.c"], profile=b, args={"quick": ["--build=" + b], "thorough": ["--build=" + b]}) for b in _GATE_BUILDS],
      deadline={"quick": 300, "thorough": 1200})
+
+
+# ---- the runtime debug level is part of "every configuration": each harness is run a second time with the library's
+# runtime debug level at 9999 (every compiled-in D_* statement evaluates its arguments, a failed ASSERT is fatal).  The
+# level runs use the quick-tier bounds where the thorough bounds are expensive.  C15, C16 and C20 set levels themselves.
+_DL_THOROUGH_AT_QUICK = {"C01", "C02", "C03", "C07", "C09", "C12", "C13", "C17"}
+for _pid in ("C01", "C02", "C03", "C04", "C05", "C06", "C07", "C08", "C09", "C10", "C11", "C12", "C13", "C14", "C17", "C18", "C19"):
+    _P = PROPS[_pid]
+    _extra = []
+    for _r in _P["runs"]:
+        if _r["name"].endswith("_leak") or _r["name"].endswith("_la") or _r.get("profile") not in ("asan",):
+            continue
+        _d = dict(_r)
+        _d["name"] = _r["name"] + "_dl"
+        _d["binary"] = _r["name"]
+        _a = _r.get("args", {})
+        _q = list(_a.get("quick", []))
+        _t = _q if _pid in _DL_THOROUGH_AT_QUICK else list(_a.get("thorough", []))
+        _d["args"] = {"quick": _q + ["--dlevel=9999"], "thorough": [x for x in _t if x != "--lookahead=0"] + ["--dlevel=9999"]}
+        _extra.append(_d)
+    _P["runs"] = _P["runs"] + _extra
+    _P["bounds"] = {k: v + "; repeated at runtime debug level 9999" + (" (quick bounds)" if (k == "thorough" and _pid in _DL_THOROUGH_AT_QUICK) else "") for k, v in _P["bounds"].items()}
+
 NOT_CLAIMED = {}
